@@ -1,3 +1,332 @@
+"""E5 — UNITS: dimension inference for offsets, lengths, file coordinates and line numbers.
+
+Units: FileOff (byte offset in the input), BufOff (offset in the reader buffer), Len (a number
+of bytes), Disp (difference of two file offsets), Line, and None (unknown / neutral).  A value
+gets its unit from where it comes from (seed table of fields and external calls) and from the
+operator table; values are followed through copies, casts, tuple/Option payloads and through the
+return values of crate-internal callees.  Only *definite* unit errors are reported; an unknown
+unit is silent, so imprecision costs detection, never a false alarm.
+"""
+import re
+from flow import *
+from mir import roots_of, DefUse, Place, Operand
+from rules_par import find_call
+from rules_err import is_derive
+
+FILEOFF, BUFOFF, LEN, DISP, LINE = 'FileOff', 'BufOff', 'Len', 'Disp', 'Line'
+
+# seed table (confirmed by reading): field name paths (suffixes of the access path)
+FIELD_UNITS = [
+    (('position', 'byte'), FILEOFF), (('position', 'line'), LINE),
+    (('buf_pos', 'start'), BUFOFF), (('search_pos',), BUFOFF), (('buf_pos', 'seq_pos'), BUFOFF),
+    (('buf_pos', 'pos', '0'), BUFOFF), (('buf_pos', 'pos', '1'), BUFOFF),
+    (('buf_pos', 'seq'), BUFOFF), (('buf_pos', 'sep'), BUFOFF), (('buf_pos', 'qual'), BUFOFF),
+]
+TYPE_FIELD_UNITS = {   # (type substring of the parameter, field) -> unit
+    ('Position', 'byte'): FILEOFF, ('Position', 'line'): LINE,
+    ('BufferPosition', 'start'): BUFOFF, ('BufferPosition', 'seq'): BUFOFF, ('BufferPosition', 'sep'): BUFOFF,
+    ('BufferPosition', 'qual'): BUFOFF, ('BufferPosition', 'seq_pos'): BUFOFF,
+}
+
+
+def join(a, b):
+    if a is None:
+        return b
+    if b is None or a == b:
+        return a
+    if {a, b} == {LEN, BUFOFF}:
+        return BUFOFF
+    return 'CLASH(%s,%s)' % tuple(sorted((a, b)))
+
+
+class Units:
+    def __init__(self, prog):
+        self.prog = prog
+        self.du = {}
+        self.memo = {}
+
+    def du_of(self, b):
+        if b.path not in self.du:
+            self.du[b.path] = DefUse(b)
+        return self.du[b.path]
+
+    def unit_op(self, b, x, suffix0=(), depth=0, active=frozenset()):
+        """unit of an operand/place (+ pending field selection) in body b"""
+        key = (b.path, x.pretty() if isinstance(x, Operand) else x.key(), tuple(suffix0))
+        if key in self.memo:
+            return self.memo[key]
+        if key in active or depth > 12:
+            return None
+        active = active | {key}
+        u = None
+        for r in roots_of(b, x, self.du_of(b), suffix0=suffix0, through_calls=identity_through):
+            u = join(u, self.unit_root(b, r, depth, active))
+        self.memo[key] = u
+        return u
+
+    def unit_root(self, b, r, depth, active):
+        k = r[0]
+        suffix = r[-1]
+        names = tuple(q[1] for q in suffix if q[1] != '[]')
+        if k == 'arg':
+            for path, u in FIELD_UNITS:
+                if names[-len(path):] == path or (len(names) >= len(path) and names[:len(path)] == path):
+                    return u
+            ty = b.local_tys[r[1]]
+            for (tsub, fld), u in TYPE_FIELD_UNITS.items():
+                if tsub in ty and names and names[-1] == fld:
+                    # BufferPosition appears in both formats; Position.byte / .line are file coordinates
+                    if tsub == 'Position' and 'BufferPosition' in ty:
+                        continue
+                    return u
+            return None
+        if k == 'const':
+            return None
+        if k == 'call':
+            t = r[1]
+            c = t.callee
+            if c is None:
+                return None
+            cb = self.prog.local_callee_body(c)
+            if cb is not None:
+                return self.unit_op(cb, Place({'l': 0, 'p': []}), tuple(suffix), depth + 1, active)
+            tp = c.target_path()
+            if c.name in ('len', 'capacity') and not names:
+                return LEN
+            if tp.startswith('memchr::') or (c.path == 'std::iter::Iterator::next' and 'Memchr' in (c.resolved or '')):
+                return LEN
+            if c.name in ('position',) and 'iter' in tp:
+                return LEN
+            if c.path == 'std::iter::Iterator::next':
+                # element of an iterator over stored offsets?
+                src = roots_of(b, t.args[0], self.du_of(b), through_calls=lambda cc: 0 if cc and (cc.path in IDENTITY_CALLS or cc.name in ('iter', 'iter_mut', 'into_iter')) else None)
+                u = None
+                for s in src:
+                    if s[0] == 'arg':
+                        u = join(u, self.unit_root(b, s, depth, active))
+                return u
+            return None
+        if k == 'bin':
+            s = r[1]
+            op = s.rv.j['op']
+            a = self.unit_op(b, s.rv.ops[0], (), depth + 1, active)
+            c = self.unit_op(b, s.rv.ops[1], (), depth + 1, active)
+            return binop(op, a, c)[0]
+        return None
+
+
+def binop(op, a, c):
+    """-> (unit, error text or None)"""
+    def bad(x):
+        return isinstance(x, str) and x.startswith('CLASH')
+    if bad(a) or bad(c):
+        return (a if bad(a) else c), None
+    if op.startswith('Add'):
+        pair = {a, c}
+        if a is None and c is None:
+            return None, None
+        if FILEOFF in pair:
+            other = (pair - {FILEOFF}).pop() if len(pair) > 1 else FILEOFF
+            if a == c == FILEOFF:
+                return 'CLASH', 'file offset + file offset'
+            if other in (LEN, BUFOFF, DISP, None):
+                return FILEOFF, None
+            return 'CLASH', 'file offset + %s' % other
+        if LINE in pair:
+            other = (pair - {LINE}).pop() if len(pair) > 1 else LINE
+            if other in (None, LEN):
+                return LINE, None
+            return 'CLASH', 'line number + %s' % other
+        if a == c == BUFOFF:
+            return 'CLASH', 'buffer offset + buffer offset'
+        if BUFOFF in pair:
+            return BUFOFF, None
+        if DISP in pair:
+            return (BUFOFF if BUFOFF in pair else DISP), None
+        return join(a, c), None
+    if op.startswith('Sub'):
+        if a == FILEOFF and c == FILEOFF:
+            return DISP, None
+        if a == FILEOFF and c in (LEN, None, DISP):
+            return FILEOFF, None
+        if a == FILEOFF and c == BUFOFF:
+            return FILEOFF, None       # file offset of the buffer start
+        if c == FILEOFF:
+            return 'CLASH', '%s - file offset' % a
+        if a == BUFOFF and c == BUFOFF:
+            return LEN, None
+        if a == BUFOFF:
+            return BUFOFF, None
+        if a == LINE and c in (None, LEN):
+            return LINE, None
+        if LINE in (a, c) and a != c:
+            return 'CLASH', '%s - %s' % (a, c)
+        return (a if a is not None else None), None
+    if op in ('Lt', 'Le', 'Gt', 'Ge', 'Eq', 'Ne'):
+        if a is None or c is None or a == c:
+            return None, None
+        if {a, c} <= {LEN, BUFOFF}:
+            return None, None
+        if {a, c} <= {DISP, LEN}:
+            return None, None
+        return None, 'comparison of %s with %s' % (a, c)
+    return None, None
+
+
+def reader_bodies(prog, fmt):
+    return [b for b in prog.bodies.values() if b.key.startswith('%s::Reader::' % fmt) and not is_derive(b)]
+
+
 def run(prog, R):
-    R.rule('UNIT-1', '(engine under construction)')
+    R.rule('UNIT-1', 'a file coordinate (Position.byte) is only ever assigned: a copy of a file coordinate, or file coordinate +/- a number of bytes; never a buffer-relative offset or a length on its own. Line numbers likewise never receive byte quantities')
+    R.rule('UNIT-3', 'every function that re-bases the buffer (BufRead::consume(c)) rewrites every stored buffer offset relative to c (or, when it keeps no offsets, accounts for c in the file coordinate)')
+    R.rule('UNIT-5', 'the arithmetic of seek is dimensionally consistent: displacement = file offset - file offset, buffer target = buffer offset + displacement, compared with buffer lengths only')
+    U = Units(prog)
+    n1 = 0
+    for fmt in ('fasta', 'fastq'):
+        for b in reader_bodies(prog, fmt):
+            if b.key.endswith('::with_capacity') or b.key.endswith('::new') or b.key.endswith('::set_policy'):
+                continue
+            for blk in b.blocks:
+                if blk.idx not in b.cfg.rset:
+                    continue
+                for s in blk.stmts:
+                    if s.k != 'assign' or s.place.local != 1:
+                        continue
+                    names = tuple(p['name'] for p in s.place.proj if p['k'] == 'field')
+                    if names not in (('position', 'byte'), ('position', 'line')):
+                        continue
+                    want = FILEOFF if names[-1] == 'byte' else LINE
+                    n1 += 1
+                    rv = s.rv
+                    ok, det = True, ''
+                    if rv.k in ('use', 'cast'):
+                        u = U.unit_op(b, rv.ops[0])
+                        if want == FILEOFF:
+                            ok = u in (FILEOFF,) or (u is None and rv.ops[0].is_const)
+                            if u is None and not rv.ops[0].is_const:
+                                ok = True   # unknown: silent
+                        else:
+                            ok = u in (LINE, None)
+                        det = '%s = <%s>' % ('.'.join(names), u)
+                    elif rv.k == 'bin':
+                        a = U.unit_op(b, rv.ops[0])
+                        c = U.unit_op(b, rv.ops[1])
+                        u, err = binop(rv.j['op'], a, c)
+                        ok = err is None and u == want and not (isinstance(u, str) and u.startswith('CLASH'))
+                        det = '%s = %s(<%s>, <%s>) = <%s>%s' % ('.'.join(names), rv.j['op'], a, c, u, (' : ' + err) if err else '')
+                    else:
+                        det = '%s assigned from %s' % ('.'.join(names), rv.k)
+                    cnt = sum(1 for it in R.items if it['rule'] == 'UNIT-1' and it['key'].startswith('UNIT-1:%s:%s' % (b.key, '.'.join(names))))
+                    R.add('UNIT-1', b, '%s#%d' % ('.'.join(names), cnt + 1), ok, site(b, s.line),
+                          det + ('' if ok else '  — a %s must be a file coordinate +/- bytes (this is what makes positions independent of the buffer size)' % ('file offset' if want == FILEOFF else 'line number')))
+    R.floor('UNIT-1', 6)
+    # error fields that are lines
+    # ---------------- UNIT-3
+    OFFSETS = {'fasta': [('buf_pos', 'start'), ('search_pos',), ('buf_pos', 'seq_pos')],
+               'fastq': [('buf_pos', 'pos', '0'), ('buf_pos', 'seq'), ('buf_pos', 'sep'), ('buf_pos', 'qual')]}
+    for fmt in ('fasta', 'fastq'):
+        for b in reader_bodies(prog, fmt):
+            cons = find_call(b, 'std::io::BufRead::consume')
+            if not cons:
+                continue
+            du = U.du_of(b)
+            for ci, (cb_, ct) in enumerate(cons):
+                amount_roots = roots_of(b, ct.args[1], du)
+                after = b.cfg.reach_from(cb_, include_start=False) | {cb_}
+                written = {}
+                for x in after:
+                    for s in b.blocks[x].stmts:
+                        if s.k == 'assign' and s.place.local == 1:
+                            names = tuple(p['name'] for p in s.place.proj if p['k'] == 'field')
+                            if names in OFFSETS[fmt]:
+                                written[names] = classify_shift(b, s, ct, du)
+                        # *s -= consumed  for s in &mut seq_pos
+                        if s.k == 'assign' and s.place.proj and s.place.proj[-1]['k'] == 'deref' and s.rv.k == 'bin' and s.rv.j['op'].startswith('Sub'):
+                            src = roots_of(b, Place({'l': s.place.local, 'p': []}), du, through_calls=lambda c: 0 if c and (c.path in IDENTITY_CALLS or c.name in ('iter_mut', 'into_iter', 'next')) else None)
+                            for r in src:
+                                if r[0] == 'arg' and tuple(q[1] for q in r[-1] if q[1] not in ('[]', '0'))[:2] == ('buf_pos', 'seq_pos'):
+                                    written[('buf_pos', 'seq_pos')] = same_amount(b, s.rv.ops[1], ct, du)
+                missing = [o for o in OFFSETS[fmt] if o not in written]
+                wrong = [o for o, v in written.items() if v is False]
+                if not written:
+                    # keeps no offsets: the amount must reach the file coordinate
+                    flows = False
+                    for x in after:
+                        for s in b.blocks[x].stmts:
+                            if s.k == 'assign' and s.place.local == 1 and tuple(p['name'] for p in s.place.proj if p['k'] == 'field') == ('position', 'byte') \
+                                    and s.rv.k == 'bin' and s.rv.j['op'].startswith('Add'):
+                                for o in s.rv.ops:
+                                    if same_amount(b, o, ct, du):
+                                        flows = True
+                    R.add('UNIT-3', b, 'consume#%d:accounted-in-file-offset' % (ci + 1), flows, site(b, ct.line),
+                          'the function stores no buffer offsets; the consumed amount %s added to Position.byte' % ('is' if flows else 'is NOT'))
+                else:
+                    R.add('UNIT-3', b, 'consume#%d:all-offsets-shifted' % (ci + 1), not missing and not wrong, site(b, ct.line),
+                          'offsets rewritten after consume: %s; missing: %s; not shifted by the consumed amount: %s' % (sorted('.'.join(o) for o in written), ['.'.join(o) for o in missing], ['.'.join(o) for o in wrong]))
+    R.floor('UNIT-3', 3)
+    # ---------------- UNIT-5
+    for fmt in ('fasta', 'fastq'):
+        try:
+            b = prog.get('%s::Reader::seek' % fmt)
+        except KeyError:
+            R.anchor_missing('UNIT-5', '%s::Reader::seek' % fmt)
+            continue
+        n = 0
+        for blk in b.blocks:
+            if blk.idx not in b.cfg.rset:
+                continue
+            for s in blk.stmts:
+                if s.k == 'assign' and s.rv.k == 'bin' and s.rv.j['op'] in ('Add', 'Sub', 'Lt', 'Le', 'Gt', 'Ge', 'Eq', 'Ne', 'AddUnchecked', 'SubUnchecked'):
+                    a = U.unit_op(b, s.rv.ops[0])
+                    c = U.unit_op(b, s.rv.ops[1])
+                    if a is None and c is None:
+                        continue
+                    u, err = binop(s.rv.j['op'], a, c)
+                    n += 1
+                    R.add('UNIT-5', b, 'op#%d:%s' % (n, s.rv.j['op']), err is None and not (isinstance(u, str) and u.startswith('CLASH')), site(b, s.line),
+                          '%s(<%s>, <%s>) -> <%s>%s' % (s.rv.j['op'], a, c, u, (' : ' + err) if err else ''))
+                # stores into buffer-offset fields must not be a bare displacement
+                if s.k == 'assign' and s.place.local == 1:
+                    names = tuple(p['name'] for p in s.place.proj if p['k'] == 'field')
+                    if names in (('search_pos',),) and s.rv.k in ('use', 'cast'):
+                        u = U.unit_op(b, s.rv.ops[0])
+                        n += 1
+                        R.add('UNIT-5', b, 'store#%d:%s' % (n, '.'.join(names)), u in (BUFOFF, LEN, None), site(b, s.line), '%s <- <%s>' % ('.'.join(names), u))
+            t = blk.term
+            if t.k == 'call' and prog.local_callee_body(t.callee) is not None and 'BufferPosition' in prog.local_callee_body(t.callee).key and len(t.args) == 2:
+                u = U.unit_op(b, t.args[1])
+                n += 1
+                R.add('UNIT-5', b, 'reset#%d' % n, u in (BUFOFF, LEN, None), site(b, t.line), 'buffer offsets reset to <%s>' % u)
+    R.floor('UNIT-5', 8)
     return {}
+
+
+def same_amount(b, op, consume_term, du):
+    """does operand `op` denote the amount passed to this consume call?"""
+    r1 = roots_of(b, op, du)
+    r2 = roots_of(b, consume_term.args[1], du)
+
+    def sig(rs):
+        out = set()
+        for r in rs:
+            if r[0] == 'arg':
+                out.add(('arg', r[1], tuple(q[1] for q in r[-1])))
+            elif r[0] in ('bin', 'un', 'agg', 'other', 'discr'):
+                out.add((r[0], id(r[1])))
+            elif r[0] == 'call':
+                out.add(('call', id(r[1])))
+            elif r[0] == 'const':
+                out.add(('const', r[1].pretty()))
+        return out
+    return bool(r1) and sig(r1) == sig(r2)
+
+
+def classify_shift(b, s, consume_term, du):
+    """assignment to a stored offset after consume: True if const 0 or old - amount"""
+    rv = s.rv
+    if rv.k == 'use' and rv.ops[0].is_const and rv.ops[0].const_int() == 0:
+        return True
+    if rv.k == 'bin' and rv.j['op'].startswith('Sub'):
+        return same_amount(b, rv.ops[1], consume_term, du)
+    return False
